@@ -1564,8 +1564,74 @@ func (bf *boundsFn) prove(fs *factSet, a, b bterm, k int64, depth int) bool {
 				return true
 			}
 		}
+		// parameters of a literal called in place: the relation between the arguments at the call
+		if call, pa, pb, ok := bf.inPlaceTerms(a, b); ok {
+			pbf := bf.c.bounds(bf.fn.Parent())
+			if pfs := pbf.before[call]; pfs != nil && pbf.prove(pfs, pa, pb, k, depth+1) {
+				return true
+			}
+		}
 	}
 	return false
+}
+
+// inPlaceTerms translates a and b to the enclosing function when each is a constant, a parameter of
+// this literal (value, len or cap), or a captured variable, and the literal is called in place.
+func (bf *boundsFn) inPlaceTerms(a, b bterm) (*ssa.Call, bterm, bterm, bool) {
+	call := inPlaceCall(bf.fn)
+	if call == nil {
+		return nil, bterm{}, bterm{}, false
+	}
+	pbf := bf.c.bounds(bf.fn.Parent())
+	any := false
+	tr := func(t bterm) (bterm, bool) {
+		if t.n == bzero {
+			return t, true
+		}
+		p, ok := t.n.v.(*ssa.Parameter)
+		if !ok || p.Parent() != bf.fn {
+			// a captured variable never written inside and stored once before the literal is made
+			if _, ca, cb, okc := bf.capturedTerms(t, zt); okc {
+				_ = cb
+				any = true
+				return ca, true
+			}
+			return bterm{}, false
+		}
+		idx := -1
+		for i, fp := range bf.fn.Params {
+			if fp == p {
+				idx = i
+			}
+		}
+		if idx < 0 || idx >= len(call.Call.Args) {
+			return bterm{}, false
+		}
+		arg := call.Call.Args[idx]
+		var pt bterm
+		switch t.n.k {
+		case kVal:
+			pt = pbf.norm(arg)
+		case kLen:
+			pt = pbf.lenOf(arg)
+		case kCap:
+			pt = pbf.capOf(arg)
+		default:
+			return bterm{}, false
+		}
+		if !pt.ok {
+			return bterm{}, false
+		}
+		pt.c += t.c
+		any = true
+		return pt, true
+	}
+	pa, ok1 := tr(a)
+	pb, ok2 := tr(b)
+	if !ok1 || !ok2 || !any {
+		return nil, bterm{}, bterm{}, false
+	}
+	return call, pa, pb, true
 }
 
 // capturedTerms translates a and b to the enclosing function when each is a constant or the load of
@@ -1593,7 +1659,7 @@ func (bf *boundsFn) capturedTerms(a, b bterm) (*ssa.MakeClosure, bterm, bterm, b
 		if t.n == bzero {
 			return t, true
 		}
-		if t.n.k != kVal {
+		if t.n.k != kVal && t.n.k != kLen && t.n.k != kCap {
 			return bterm{}, false
 		}
 		ld, ok := t.n.v.(*ssa.UnOp)
@@ -1648,7 +1714,15 @@ func (bf *boundsFn) capturedTerms(a, b bterm) (*ssa.MakeClosure, bterm, bterm, b
 		} else if !st.Block().Dominates(mc.Block()) {
 			return bterm{}, false
 		}
-		pt := pbf.norm(pv)
+		var pt bterm
+		switch t.n.k {
+		case kVal:
+			pt = pbf.norm(pv)
+		case kLen:
+			pt = pbf.lenOf(pv)
+		case kCap:
+			pt = pbf.capOf(pv)
+		}
 		if !pt.ok {
 			return bterm{}, false
 		}
